@@ -25,6 +25,7 @@ package fix
 //@   unfold wf_kv_intro(x Item): imp(istype(x, *KeyValue) && x.(*KeyValue).Value != nil, wfItem(x))
 //@ spec wfSeq(s ref) bool
 //@   unfold wf_seq_at(s []Item, i int): requires 0 <= i && i < len(s) ensures imp(wfSeq(s), wfItem(s[i]))
+//@   unfold wf_seq_3(s []Item): imp(len(s) == 3 && wfItem(s[0]) && wfItem(s[1]) && wfItem(s[2]), wfSeq(s))
 
 //@ interface Value
 //@   method FromBytes(d []byte) (err error):
@@ -240,3 +241,6 @@ package fix
 //@   ensures[C17] res != nil && res.value == v
 //@ func NewKeyValue(key string, value Value) (res *KeyValue)
 //@   inline
+
+//@ lemma[C03,C02] wireV_raw(v Value): requires istype(v, *Raw) ensures wireV(v) == v.(*Raw).value && nullV(v) == isnil(v.(*Raw).value)
+//@   reveal wireV, nullV
